@@ -1,4 +1,5 @@
 """Which harness modules decide which property."""
 PROPERTIES = {
+    "C09": ["harness.C09_ignored"],
     "C10": ["harness.C10_location"],
 }
